@@ -28,7 +28,8 @@ ASSUMPTIONS = [
 ]
 N = {'quick': 2500, 'thorough': 10000}
 LAZY = {'map', 'filter_lazy', 'slice', 'batch', 'unbatch', 'items', 'tile', 'cache_lazy', 'catch', 'copy',
-        'concat', 'intersperse', 'zip', 'key_zip', 'frag', 'batch_map', 'prefetch1', 'local_shuffle'}
+        'concat', 'intersperse', 'zip', 'key_zip', 'frag', 'batch_map', 'prefetch1', 'local_shuffle', 'parmap',
+        'nonemap'}
 
 
 def plan(tier):
@@ -79,6 +80,15 @@ def compare(node, impl_log, ref_log, what):
             if what != 'prefix' and not is_subsequence(seen, want):
                 raise Violation(f'{what}-evaluated-without-demand|{stage}',
                                 f'stage {stage} at {path} saw {seen}\nthe lazy reference evaluates only {want}')
+            continue
+        nd = nodes.get(path, {})
+        if nd.get('op') == 'parmap' or (nd.get('op') == 'batch_map' and nd.get('workers')):
+            # the stage's own function runs in worker threads: the log order across threads is not meaningful
+            extra = [a for a in set(seen) if seen.count(a) > want.count(a)]
+            if extra:
+                raise Violation(f'{what}-evaluated-without-demand|{stage}',
+                                f'parallel stage {stage} at {path} saw {sorted(seen)}\nthe lazy reference (with '
+                                f'buffer_size+1 look-ahead) evaluates only {sorted(want)}')
             continue
         if not is_subsequence(seen, want):
             extra = [a for a in seen if seen.count(a) > want.count(a)]
@@ -168,7 +178,8 @@ def run_shard(tier, idx, nshards, rec, known):
         check(case)
         node = case['ast']
         m = ev(node)
-        instrumented = sum(1 for n in progs.walk(node) if n['op'] in ('map', 'filter', 'frag', 'batch_map'))
+        instrumented = sum(1 for n in progs.walk(node) if n['op'] in ('map', 'filter', 'frag', 'batch_map', 'parmap',
+                                                                        'nonemap'))
         if case['mode'] == 'prefix':
             nt = 0 < case['arg'] < m.n and progs.depth(node) >= 2 and instrumented >= 2
         else:
